@@ -13,9 +13,7 @@ import (
 )
 
 const (
-	fdMin = 50000
-	fdMax = 50002
-	fdN   = fdMax - fdMin + 1
+	fdN = 3
 	// fdShardDepth: a history belongs to the shard selected by a hash of its
 	// first fdShardDepth choices (rep.Enumerate shards on the first two only,
 	// which here are config and first answer: 18 very unequal groups).
@@ -132,7 +130,7 @@ func fdBody(pk *fdPicker, configs []fdConfig) (run fdRun) {
 
 		return last
 	}
-	g := &turn.RelayAddressGeneratorPortRange{RelayAddress: relay4, Address: "0.0.0.0", MinPort: fdMin, MaxPort: fdMax,
+	g := &turn.RelayAddressGeneratorPortRange{RelayAddress: relay4, Address: "0.0.0.0", MinPort: uint16(fdMin), MaxPort: uint16(fdMax), //nolint:gosec
 		MaxRetries: cfg.MaxRetries, Rand: sr, Net: nw.Transport()}
 	if err := g.Validate(); err != nil {
 		panic("harness: " + err.Error())
@@ -377,7 +375,18 @@ func fdDepth(maxRetries int) int {
 // TestC20FillDrain is part (iii): stateless DFS by prefix replay (every history
 // starts from a fresh network and generator), odometer over the recorded
 // arities as in rep.Enumerate.
-func TestC20FillDrain(t *testing.T) {
+// fdMin..fdMax is the 3-port range under test; TestC20FillDrainTop moves it to the top of the port space.
+var fdMin, fdMax = 50000, 50002
+
+func TestC20FillDrain(t *testing.T) { fillDrain(t) }
+
+// TestC20FillDrainTop: the same search on [65533,65535], where port arithmetic can wrap.
+func TestC20FillDrainTop(t *testing.T) {
+	fdMin, fdMax = 65533, 65535
+	fillDrain(t)
+}
+
+func fillDrain(t *testing.T) {
 	r := rep.New("C20")
 	defer r.Write()
 	si, sn := rep.Shard()
